@@ -675,6 +675,9 @@ class ContentSecurityPolicyDirectiveSourceBase(ContentSecurityPolicyDirectiveBas
             parser.parse_string_array('value', ' ', source_variant_parsable, skip_empty=True)
             directive_value = parser['value']
         else:
+            directive_value = []
+
+        if not directive_value:
             raise InvalidValue(parser.unparsed, cls, 'value')
 
         return cls(directive_value), parser.parsed_length
